@@ -154,14 +154,14 @@ class Ref:
         v = self.cont[self.key]
         for p in self.path:
             k = p[0]
+            while type(v) is Ref:
+                v = v.load()
             if k == 'f':
                 v = v.fields[p[1]]
             elif k == 'i':
                 v = seq_items(v)[p[1]]
             else:
                 raise RuntimeError('bad ref path ' + repr(p))
-            while type(v) is Ref and False:
-                v = v.load()
         return v
 
     def store(self, new):
